@@ -414,7 +414,7 @@ def lattice_points(ctx):
     # every alignment mode: the stored values must come from the
     # least-squares alignment also where it needs the reflection handling
     # and where the coordinates are large compared with the extent
-    sub3 = [("geometry", ["m", "f", "same", "b"]), ("relation", DIMS[0][1]),
+    sub3 = [("geometry", ["m", "f", "same", "b", "nonl", "crlf"]), ("relation", DIMS[0][1]),
             ("align", DIMS[1][1]), ("n_to_align", [-1, 4, 6]),
             ("downsample", [None, 5]), ("project", [None, "xy", "xz"]),
             ("t_max_diff", [0.01, 0.3])]
